@@ -80,7 +80,7 @@ def gen(rng, tier):
             v = rng.choice([b"1", b"v # not a comment", b"x = y", b"\"q\"", b"", b"l1"])
             lines.append(k + rng.choice([b"=", b" = ", b": "]) + v)
             for _ in range(rng.randrange(0, 3)):
-                lines.append(rng.choice([b"  ", b"\t", b" "]) + rng.choice([b"cont = x", b"more # text", b"plain", b"k2: v2", b"\"quoted\""]))
+                lines.append(rng.choice([b"  ", b"\t", b" "]) + rng.choice([b"cont = x", b"more # text", b"plain", b"k2: v2", b"\"quoted\"", b"beta=2", b"delta=4=4", b"k2:v2", b"=y", b"two words=3"]))
         s = Scenario([gens.parse_cmd(0, b"/p/f.conf", b"\n".join(lines) + b"\n", rng.choice([b"=", b":="]), b"#", True, False), "getall 0", "dump 0"],
                      [True, True, True], tags=("python",))
         out.append(s)
